@@ -63,7 +63,7 @@ static void put_bytes(std::string& js, const char* key, const uint8_t* p, int n)
 // kinds whose result depends on the register width (events are grouped per width)
 static bool reg_granular(const std::string& k)
 {
-    return !(k == "ew" || k == "ew2" || k == "ewi" || k == "ewm" || k == "sel" || k == "cmp" || k == "cvt" || k == "m1" || k == "m2" || k == "m1x2" || k == "m1i" || k == "cx1" || k == "cxr" || k == "cx2" || k == "cx3" || k == "cx1s" || k == "cxp" || k == "cxq" || k == "cxc");
+    return !(k == "ew" || k == "ew2" || k == "ewi" || k == "ewm" || k == "sel" || k == "cmp" || k == "cvt" || k == "m1" || k == "m2" || k == "m1x2" || k == "m1i" || k == "cx1" || k == "cxr" || k == "cx2" || k == "cx3" || k == "cx1s" || k == "cxp" || k == "cxq" || k == "cxc" || k == "prog");
 }
 
 int main(int argc, char** argv)
